@@ -277,8 +277,8 @@ def run(ck):
     for n, rep in sorted(leaked.items()):
         if many:
             break
-        ck.violation(site_of(n, d), "a rejected attempt leaves a trace: after revert the field %s (read by the next attempt) "
-                     "still holds the value written by the rejected attempt (history: %d rejected, %d accepted attempts)"
+        ck.violation(site_of(n, d), "a rejected attempt leaves a trace: at the beginning of the next attempt the field %s (read by "
+                     "it) is not what it was when the rejected attempt started (history: %d rejected, %d accepted attempts)"
                      % (n, rep["rejected"], rep["accepted"]), rep, True)
     if many:
         rep = sorted(leaked.values(), key=lambda x: x["attempts"])[0]
